@@ -489,3 +489,201 @@ Proof.
   - apply (Hno _ Hc). reflexivity.
   - apply (Hno _ Hc). reflexivity.
 Qed.
+
+(* ---------------------------------------------------------------------------------------------- *)
+(* The retried attempt: the watcher is told [wc] (the empty id as coded), waitForStart the
+   re-elected coordinator [c]. *)
+
+Lemma wait_step2_same : forall c st m, wait_step2 c c st m = wait_step c st m.
+Proof. intros c st m. destruct st; destruct m; reflexivity. Qed.
+
+Lemma run_wait2_same : forall c msgs st, run_wait2 c c st msgs = run_wait c st msgs.
+Proof.
+  intros c. induction msgs as [|m r IH]; intros st; cbn [run_wait2 run_wait]; [reflexivity|].
+  rewrite wait_step2_same. destruct (wait_step c st m) as [st' o]. rewrite IH. reflexivity.
+Qed.
+
+Definition watcher_told (wc : option peer) (c : peer) : Prop := wc = None \/ wc = Some c.
+
+Lemma fail_ok_told : forall wc c f, watcher_told wc c -> fail_ok wc f = true -> f = c.
+Proof.
+  intros wc c f [-> | ->] H; cbn [fail_ok] in H; [discriminate | apply N.eqb_eq; exact H].
+Qed.
+
+Lemma wait_step2_foreign : forall wc c st m,
+  watcher_told wc c -> from_is c m = false -> wait_step2 wc (Some c) st m = (st, []).
+Proof.
+  intros wc c st m Hwc Hf. unfold from_is in Hf.
+  destruct st; destruct m as [f|f ps|f]; cbn [wait_step2 msg_from from_ok] in *;
+    try rewrite Hf; try reflexivity.
+  - destruct (fail_ok wc f) eqn:E; [|reflexivity].
+    apply (fail_ok_told wc c f Hwc) in E. subst. rewrite N.eqb_refl in Hf. discriminate.
+  - destruct (fail_ok wc f) eqn:E; [|reflexivity].
+    apply (fail_ok_told wc c f Hwc) in E. subst. rewrite N.eqb_refl in Hf. discriminate.
+Qed.
+
+Lemma retry_only_coordinator_moves : forall wc c msgs st,
+  watcher_told wc c ->
+  run_wait2 wc (Some c) st msgs = run_wait2 wc (Some c) st (filter (from_is c) msgs).
+Proof.
+  intros wc c msgs st Hwc. revert st. induction msgs as [|m r IH]; intros st; cbn [run_wait2 filter].
+  - reflexivity.
+  - destruct (from_is c m) eqn:Hf.
+    + cbn [run_wait2]. destruct (wait_step2 wc (Some c) st m) as [st' o]. rewrite IH. reflexivity.
+    + rewrite (wait_step2_foreign wc c st m Hwc Hf). rewrite IH.
+      destruct (run_wait2 wc (Some c) st (filter (from_is c) r)). reflexivity.
+Qed.
+
+Corollary retry_forged_only_nothing : forall wc c msgs st,
+  watcher_told wc c ->
+  (forall m, In m msgs -> from_is c m = false) -> run_wait2 wc (Some c) st msgs = (st, []).
+Proof.
+  intros wc c msgs st Hwc Hall. rewrite (retry_only_coordinator_moves wc c msgs st Hwc).
+  replace (filter (from_is c) msgs) with (@nil wmsg); [reflexivity|].
+  symmetry. induction msgs as [|m r IH]; cbn [filter]; [reflexivity|].
+  rewrite (Hall m (or_introl eq_refl)). apply IH. intros m' Hm'. apply Hall. right. exact Hm'.
+Qed.
+
+(* as coded (empty id): no fail message at all ends the retried attempt *)
+Lemma wait_step2_none_no_abort : forall c st m st' o,
+  wait_step2 None c st m = (st', o) -> ~ In OAbort o.
+Proof.
+  intros c st m st' o H Hin.
+  destruct st; destruct m as [f|f ps|f]; cbn [wait_step2 fail_ok] in H;
+    try (destruct (from_ok c f)); try (destruct ps);
+    inversion H; subst; cbn [In] in Hin; repeat (destruct Hin as [Hin|Hin]; try discriminate); exact Hin.
+Qed.
+
+Lemma retry_as_coded_never_aborts : forall c msgs st,
+  ~ In OAbort (snd (run_wait2 None c st msgs)).
+Proof.
+  intros c. induction msgs as [|m r IH]; intros st; cbn [run_wait2].
+  - cbn. tauto.
+  - destruct (wait_step2 None c st m) as [st1 o] eqn:Hstep.
+    specialize (IH st1). destruct (run_wait2 None c st1 r) as [st2 o']. cbn [snd] in *.
+    intros Hin. apply in_app_or in Hin. destruct Hin as [Hin|Hin]; [|exact (IH Hin)].
+    exact (wait_step2_none_no_abort _ _ _ _ _ Hstep Hin).
+Qed.
+
+Lemma wait_step2_caused : forall wc c st m st' o,
+  watcher_told wc c ->
+  wait_step2 wc (Some c) st m = (st', o) -> forall x, In x o -> caused_spec c [m] x.
+Proof.
+  intros wc c st m st' o Hwc Hstep x Hx.
+  destruct st; destruct m as [f|f ps|f]; cbn [wait_step2 from_ok] in Hstep;
+    try (inversion Hstep; subst; destruct Hx; fail).
+  - destruct (N.eqb f c) eqn:E; inversion Hstep; subst; [|destruct Hx].
+    apply N.eqb_eq in E. subst. destruct Hx as [<-|[]]. cbn. split; [reflexivity | left; reflexivity].
+  - destruct (N.eqb f c) eqn:E; [|inversion Hstep; subst; destruct Hx].
+    apply N.eqb_eq in E. subst. destruct ps as [l|]; inversion Hstep; subst; destruct Hx as [<-|[]]; cbn; left; reflexivity.
+  - destruct (fail_ok wc f) eqn:E; inversion Hstep; subst; [|destruct Hx].
+    apply (fail_ok_told wc c f Hwc) in E. subst. destruct Hx as [<-|[]]. cbn. left. reflexivity.
+  - destruct (fail_ok wc f) eqn:E; inversion Hstep; subst; [|destruct Hx].
+    apply (fail_ok_told wc c f Hwc) in E. subst. destruct Hx as [<-|[]]. cbn. left. reflexivity.
+Qed.
+
+Lemma run_wait2_caused : forall wc c msgs st st' outs,
+  watcher_told wc c ->
+  run_wait2 wc (Some c) st msgs = (st', outs) -> forall x, In x outs -> caused_spec c msgs x.
+Proof.
+  intros wc c msgs st st' outs Hwc. revert st st' outs.
+  induction msgs as [|m r IH]; intros st st' outs Hrun x Hx; cbn [run_wait2] in Hrun.
+  - inversion Hrun; subst. destruct Hx.
+  - destruct (wait_step2 wc (Some c) st m) as [st1 o] eqn:Hstep.
+    destruct (run_wait2 wc (Some c) st1 r) as [st2 o'] eqn:Hrec.
+    inversion Hrun; subst. apply in_app_or in Hx. destruct Hx as [Hx|Hx].
+    + apply caused_spec_weaken. eapply wait_step2_caused; eassumption.
+    + apply caused_spec_cons. eapply IH; eassumption.
+Qed.
+
+Lemma run_wait2_counts : forall wc c msgs st st' outs,
+  run_wait2 wc (Some c) st msgs = (st', outs) ->
+  (count_ready outs <= count_initiates c msgs)%nat
+  /\ (count_runs outs <= match st with Waiting => 1 | _ => 0 end)%nat.
+Proof.
+  intros wc c. induction msgs as [|m r IH]; intros st st' outs Hrun; cbn [run_wait2] in Hrun.
+  - injection Hrun as Hs Ho. subst outs. cbn. split; [lia | destruct st; lia].
+  - destruct (wait_step2 wc (Some c) st m) as [st1 o] eqn:Hstep.
+    destruct (run_wait2 wc (Some c) st1 r) as [st2 o'] eqn:Hrec.
+    injection Hrun as Hs Ho. subst outs. specialize (IH _ _ _ Hrec). destruct IH as [IH1 IH2].
+    rewrite count_ready_app, count_runs_app.
+    unfold count_initiates in *. cbn [filter].
+    destruct st; destruct m as [f|f ps|f]; cbn [wait_step2 from_ok] in Hstep;
+      try (destruct (N.eqb f c) eqn:E); try (destruct (fail_ok wc f)); try (destruct ps);
+      inversion Hstep; subst; cbn [count_ready count_runs filter length Nat.add] in *;
+      try rewrite E; cbn [length]; split; lia.
+Qed.
+
+Lemma outs_justified_retry_model : forall wc c msgs,
+  watcher_told wc c ->
+  outs_justified c msgs (snd (run_wait2 wc (Some c) Waiting msgs)) = true.
+Proof.
+  intros wc c msgs Hwc. destruct (run_wait2 wc (Some c) Waiting msgs) as [st' outs] eqn:Hrun. cbn [snd].
+  unfold outs_justified. repeat rewrite andb_true_iff. repeat split.
+  - apply forallb_forall. intros x Hx. apply caused_complete. eapply run_wait2_caused; eassumption.
+  - apply Nat.leb_le. apply (run_wait2_counts _ _ _ _ _ _ Hrun).
+  - apply Nat.leb_le. apply (run_wait2_counts _ _ _ _ _ _ Hrun).
+Qed.
+
+Lemma retry_wait_judge_model : forall c2 msgs, outs_justified c2 msgs (snd (retry_wait c2 msgs)) = true.
+Proof. intros c2 msgs. unfold retry_wait. apply outs_justified_retry_model. left. reflexivity. Qed.
+
+(* what the judge's acceptance means for fail messages: without a fail message of the attempt's
+   coordinator the session was not aborted *)
+Lemma outs_justified_no_foreign_abort : forall c msgs outs,
+  outs_justified c msgs outs = true -> ~ In (MFail c) msgs -> ~ In OAbort outs.
+Proof.
+  intros c msgs outs Hj Hno Hin. apply outs_justified_sound in Hj. destruct Hj as [Hc _].
+  specialize (Hc OAbort Hin). cbn [caused_spec] in Hc. exact (Hno Hc).
+Qed.
+
+(* the coordinator's side of the retried attempt *)
+Lemma ev_fails_In : forall evs p, In p (ev_fails evs) <-> In (false, p) evs.
+Proof.
+  induction evs as [|[b q] r IH]; intros p; cbn [ev_fails flat_map fst snd]; [tauto|].
+  fold (ev_fails r). destruct b; cbn [app In].
+  - rewrite IH. split; [intros H; right; exact H | intros [H|H]; [discriminate | exact H]].
+  - rewrite IH. split; intros [H|H]; auto; [left; subst; reflexivity | inversion H; left; reflexivity].
+Qed.
+
+Lemma ev_readies_In : forall evs p, In p (ev_readies evs) <-> In (true, p) evs.
+Proof.
+  induction evs as [|[b q] r IH]; intros p; cbn [ev_readies flat_map fst snd]; [tauto|].
+  fold (ev_readies r). destruct b; cbn [app In].
+  - rewrite IH. split; intros [H|H]; auto; [left; subst; reflexivity | inversion H; left; reflexivity].
+  - rewrite IH. split; [intros H; right; exact H | intros [H|H]; [discriminate | exact H]].
+Qed.
+
+Lemma retry_coord_never_aborts : forall key holders t excluded self evs,
+  snd (retry_coord key holders t excluded self evs) = false.
+Proof.
+  intros. unfold retry_coord. cbn [snd]. induction (ev_fails evs) as [|f r IH]; [reflexivity | exact IH].
+Qed.
+
+Lemma retry_coord_ok_model : forall key holders t excluded self evs,
+  In self holders -> ~ In self excluded ->
+  retry_coord_ok holders t excluded self evs
+    (fst (retry_coord key holders t excluded self evs)) (snd (retry_coord key holders t excluded self evs)) = true.
+Proof.
+  intros key holders t excluded self evs Hh He. unfold retry_coord_ok.
+  rewrite retry_coord_never_aborts. cbn [andb]. unfold retry_coord. cbn [fst].
+  destruct (initiate key holders t excluded [self] (ev_readies evs)) as [calls ann] eqn:Hinit. cbn [snd].
+  destruct ann as [sub|]; [|reflexivity].
+  eapply announced_subset_ok; eassumption.
+Qed.
+
+Lemma retry_coord_ok_sound : forall holders t excluded self evs run aborted,
+  retry_coord_ok holders t excluded self evs run aborted = true ->
+  (aborted = true -> In (false, self) evs)
+  /\ (forall S, run = Some S ->
+        Z.of_nat (length S) = (t + 1)%Z /\ NoDup S /\ (forall p, In p S -> In p holders)
+        /\ (forall p, In p S -> p = self \/ In (true, p) evs) /\ In self S
+        /\ (forall p, In p S -> ~ In p excluded)).
+Proof.
+  intros holders t excluded self evs run aborted H. unfold retry_coord_ok in H.
+  apply andb_true_iff in H. destruct H as [Ha Hr]. split.
+  - intros ->. apply ev_fails_In. apply memb_In. exact Ha.
+  - intros S ->. apply subset_ok_iff in Hr.
+    destruct Hr as [H1 [H2 [H3 [H4 [H5 H6]]]]]. repeat split; try assumption.
+    intros p Hp. destruct (H4 p Hp) as [->|Hin]; [left; reflexivity | right; apply ev_readies_In; exact Hin].
+Qed.
